@@ -93,7 +93,9 @@ ASSUMPTIONS = [
     "served at once, the retry of a permanent request and every NewConnReq park until the path releases them); "
     "the retry delay is 1 ms instead of 5 s",
     "peer-set slice: the driver observes after every asynchronous consequence of a step has finished (bounded "
-    "waits of 2 s, >= 100x the normal latency, extended while the machine is starved); ShutBegin / ShutEnd are "
+    "waits of 2 s, >= 100x the normal latency, extended while the machine is starved), in particular after the peer "
+    "handler has taken the done message of every connection that ended in the step (a done message handled after a "
+    "later query is a behaviour of the real system too; the model describes the quiescent order); ShutBegin / ShutEnd are "
     "the first (shutdown flag, connManager.Stop) and the last (close(quit)) effect of ChainService.Stop on the "
     "peer handler, performed by the driver on a ChainService value without the other subsystems",
     "peer-set slice: only the enforcement sentence of C13 is judged; ConnectedCount, AddedNodeInfo, "
